@@ -13,7 +13,7 @@ for try in 1 2 3 4 5 6; do   # concurrent runs contend for /repo's git lock file
 done
 [ -d $ROOT/repo/policy ] || { echo "iso=$NAME could not create the scratch worktree"; exit 2; }
 if [ "$PATCH" != "-" ]; then git -C $ROOT/repo apply "$PATCH" || { echo "patch does not apply"; git -C /repo worktree remove --force $ROOT/repo; exit 2; }; fi
-rsync -a --exclude .git --exclude replays --exclude seeded --exclude refactors /verif/ $ROOT/verif/
+rsync -a --exclude .git --exclude replays --exclude seeded --exclude refactors ${ISO_SRC:-/verif}/ $ROOT/verif/
 cd $ROOT/verif
 export VERIF_REPO=$ROOT/repo
 run_one() {
